@@ -16,6 +16,13 @@ Three oracles evaluated after EVERY operation of a history on `obj.xs`:
   would store an item the reference rejects, or would leave minlen..maxlen,
   the real operation must raise TraitError.
 
+Strata (own case ids, counters and gates): main histories + list grid (`h:*`,
+`grid:*`), value-dependent refinements of Base scalar traits (`r:*`, `rgrid:*`),
+declared defaults and sibling owners (`dflt:*`), inner classes given by name /
+forward references judged before, at and after their first resolution on early
+and late owners of a freshly declared class (`lazy:*`), intersection operators
+with equal-but-not-identical operands (`isect:*`).
+
 See DESIGN.md section 4 / C04.
 """
 import atexit
@@ -78,6 +85,21 @@ META = {
              "returned or handed out must pass the invariant walk (bound to ITS owner, at every depth), some "
              "owners are then collected, a late sibling is created, and an ordinary 8-op history runs on a "
              "survivor (nothing else is demanded of an illegal default: refusing the read is fine); "
+             "a stratum of its own (`lazy:*`) gives the inner class BY NAME -- Instance('X'), a forward reference "
+             "the library resolves lazily at the first validation -- in every inner position: ~50 configurations "
+             "with the by-name Instance (two target classes, with / without None) as list item, set item, dict "
+             "key, dict value, both, item of a nested container, dict key next to a nested container value, and "
+             "Tuple / Either member inside a container, spelled as bare name (looked up in the declaring "
+             "module), dotted path or bare name + module=; every case declares a NEW class (unresolved "
+             "reference), creates two owners first and populates nothing (implicit default, or a legal non-empty "
+             "declared default whose materialisation is then the resolving moment); ordinary histories (same "
+             "generators, invariant walk, failure atomicity and direction check after every operation) run "
+             "interleaved on the early owners and, from the first operation on any owner that submits an object "
+             "at a by-name position (item operation, whole-value assignment or constructor keyword, carrying "
+             "valid or invalid items), also on an owner created after that moment; operations are counted as "
+             "before / at / after the first resolution and, after it, by owner role (the resolving owner, "
+             "another owner created before, an owner created after), all owners are walked at the end; the "
+             "reference is that of Instance(<class>) -- nothing depends on how the class was spelled; "
              "a separate stratum draws the set "
              "intersection operators with operands equal to, but not identical with, members (it hits "
              "an open finding and would otherwise truncate the main histories). A case is non-trivial when the "
@@ -125,7 +147,29 @@ META = {
                   "refined_exact_type_trap_rejections": 2800, "refined_exact_type_trap_list_ops": 1500,
                   "refined_exact_type_trap_dict_ops": 900, "refined_exact_type_trap_set_ops": 250,
                   "refined_exact_type_trap_nested_ops": 150, "refined_exact_type_trap_assign": 110,
-                  "refined_exact_type_trap_construct": 50},
+                  "refined_exact_type_trap_construct": 50,
+                  # stratum: inner traits whose class is given by name (forward references)
+                  "lazy_cases": 750, "lazy_cases_resolved": 740, "lazy_history_ops": 11000,
+                  "lazy_ops_pre": 560, "lazy_first_resolving_ops": 740,
+                  "lazy_first_with_invalid_item": 300, "lazy_first_all_valid": 290,
+                  "lazy_first_by_item-op": 400, "lazy_first_by_assign": 110,
+                  "lazy_first_by_construct": 74, "lazy_first_by_default": 140, "lazy_ops_post": 10000,
+                  "lazy_ops_post_late_owner": 3300, "lazy_ops_post_other_early_owner": 3900,
+                  "lazy_ops_post_resolving_owner": 3100, "lazy_ops_post_with_named_class_item": 5400,
+                  "lazy_direction_pre": 100, "lazy_direction_first": 270, "lazy_direction_post": 3500,
+                  "lazy_direction_checked": 3900, "lazy_rejections_checked": 4000,
+                  "lazy_ops_succeeded": 6100, "lazy_elements_walked": 29000,
+                  "lazy_owners_adopted_before_first_resolution": 1000,
+                  "lazy_owners_adopted_after_first_resolution": 1200, "lazy_final_walks": 2200,
+                  "lazy_dict_ops": 6100, "lazy_list_ops": 2700, "lazy_set_ops": 1100,
+                  "lazy_nested_ops": 480, "lazy_assign_ops": 1100, "lazy_construct_ops": 530,
+                  "lazy_notifications_seen": 17000, "lazy_name_bare": 250, "lazy_name_dotted": 250,
+                  "lazy_name_module": 250, "lazy_default_given": 190, "lazy_pos_dict-key": 360,
+                  "lazy_pos_dict-key-with-container-value": 100, "lazy_pos_dict-value": 160,
+                  "lazy_pos_either-member": 90, "lazy_pos_list-item": 210,
+                  "lazy_pos_nested-dict-key": 30, "lazy_pos_nested-dict-value": 30,
+                  "lazy_pos_nested-list-item": 75, "lazy_pos_nested-set-item": 30,
+                  "lazy_pos_set-item": 100, "lazy_pos_tuple-member": 75},
         "thorough": {"evaluations": 2000000, "rejections_checked": 600000, "direction_checked": 500000,
                      "length_direction_checked": 150000, "ops_succeeded": 1000000,
                      "notifications_seen": 3000000, "notif_static": 600000, "notif_otc": 600000,
@@ -168,7 +212,30 @@ META = {
                      "refined_exact_type_trap_rejections": 33600, "refined_exact_type_trap_list_ops": 18000,
                      "refined_exact_type_trap_dict_ops": 10800, "refined_exact_type_trap_set_ops": 3600,
                      "refined_exact_type_trap_nested_ops": 2160, "refined_exact_type_trap_assign": 1560,
-                     "refined_exact_type_trap_construct": 720},
+                     "refined_exact_type_trap_construct": 720,
+                     # stratum: inner traits whose class is given by name (forward references)
+                     "lazy_cases": 18000, "lazy_cases_resolved": 17760, "lazy_history_ops": 264000,
+                     "lazy_ops_pre": 13440, "lazy_first_resolving_ops": 17760,
+                     "lazy_first_with_invalid_item": 7200, "lazy_first_all_valid": 6960,
+                     "lazy_first_by_item-op": 9600, "lazy_first_by_assign": 2640,
+                     "lazy_first_by_construct": 1776, "lazy_first_by_default": 3360,
+                     "lazy_ops_post": 240000, "lazy_ops_post_late_owner": 79200,
+                     "lazy_ops_post_other_early_owner": 93600, "lazy_ops_post_resolving_owner": 74400,
+                     "lazy_ops_post_with_named_class_item": 129600, "lazy_direction_pre": 2400,
+                     "lazy_direction_first": 6480, "lazy_direction_post": 84000,
+                     "lazy_direction_checked": 93600, "lazy_rejections_checked": 96000,
+                     "lazy_ops_succeeded": 146400, "lazy_elements_walked": 696000,
+                     "lazy_owners_adopted_before_first_resolution": 24000,
+                     "lazy_owners_adopted_after_first_resolution": 28800, "lazy_final_walks": 52800,
+                     "lazy_dict_ops": 146400, "lazy_list_ops": 64800, "lazy_set_ops": 26400,
+                     "lazy_nested_ops": 11520, "lazy_assign_ops": 26400, "lazy_construct_ops": 12720,
+                     "lazy_notifications_seen": 408000, "lazy_name_bare": 6000, "lazy_name_dotted": 6000,
+                     "lazy_name_module": 6000, "lazy_default_given": 4560, "lazy_pos_dict-key": 8640,
+                     "lazy_pos_dict-key-with-container-value": 2400, "lazy_pos_dict-value": 3840,
+                     "lazy_pos_either-member": 2160, "lazy_pos_list-item": 5040,
+                     "lazy_pos_nested-dict-key": 720, "lazy_pos_nested-dict-value": 720,
+                     "lazy_pos_nested-list-item": 1800, "lazy_pos_nested-set-item": 720,
+                     "lazy_pos_set-item": 2400, "lazy_pos_tuple-member": 1800},
     },
     "exhaustive_parts": ("list grid: every list mutator x every length in minlen..min(maxlen,4) x "
                          "argument lists of 0..3 items with an invalid item at each position, for every "
@@ -222,6 +289,23 @@ class Y:
         return "Y()"
 
 
+class Z:
+    """Second target class (unrelated to X), referred to by NAME only."""
+
+    def __init__(self):
+        _SERIAL[0] += 1
+        self.n = _SERIAL[0]
+
+    def __lt__(self, other):
+        return self.n < other.n
+
+    def __repr__(self):
+        return "Z#%d" % self.n
+
+
+TARGETS = {"X": X, "Z": Z}
+
+
 class Idx:
     """Supports the index protocol only (Int: 'will be converted to the corresponding int')."""
 
@@ -265,6 +349,17 @@ NONE = ("None",)
 EITH = ("Either", INT, NONE)
 TUP = ("Tuple", INT, STR)
 CINT = ("CInt",)
+
+
+
+
+def FWD(target="X", allow_none=False, how="bare"):
+    """Instance trait whose class is given by NAME (a forward reference the
+    library resolves lazily, on first validation).  how: 'bare' (name looked up
+    in the declaring module), 'dotted' (full dotted path), 'module' (bare name
+    plus the `module=` keyword), 'class' (the class object: the resolved
+    equivalent, used by the reference side only)."""
+    return ("Fwd", allow_none, how, target)
 
 
 # refinements of the Base scalar traits whose validate depends on the VALUE
@@ -388,6 +483,8 @@ def spec_name(spec):
         return "Range(%d,%d)" % spec[1:]
     if t == "Instance":
         return "Instance(X%s)" % (",none" if spec[1] else "")
+    if t == "Fwd":
+        return "Instance('%s'%s)" % (spec[3], ",none" if spec[1] else "")
     if t == "String":
         return "String(%d,%d)" % spec[1:]
     if t in ("File", "Dir"):
@@ -410,6 +507,14 @@ def build(spec, default=None):
         return Enum(*spec[1:])
     if t == "Instance":
         return Instance(X, allow_none=spec[1])
+    if t == "Fwd":
+        if spec[2] == "class":
+            return Instance(TARGETS[spec[3]], allow_none=spec[1])
+        if spec[2] == "dotted":
+            return Instance(__name__ + "." + spec[3], allow_none=spec[1])
+        if spec[2] == "module":
+            return Instance(spec[3], module=__name__, allow_none=spec[1])
+        return Instance(spec[3], allow_none=spec[1])
     if t == "Either":
         return Either(*[None if s == NONE else build(s) for s in spec[1:]])
     if t == "Tuple":
@@ -499,6 +604,10 @@ def convert(spec, v):
         raise Reject()
     if t == "Instance":
         if isinstance(v, X) or (v is None and spec[1]):
+            return v
+        raise Reject()
+    if t == "Fwd":
+        if isinstance(v, TARGETS[spec[3]]) or (v is None and spec[1]):
             return v
         raise Reject()
     if t == "None":
@@ -614,6 +723,8 @@ def in_domain(spec, e, owner=None):
         return type(e) is str and e in spec[1:]
     if t == "Instance":
         return isinstance(e, X) or (spec[1] and e is None)
+    if t == "Fwd":
+        return isinstance(e, TARGETS[spec[3]]) or (spec[1] and e is None)
     if t == "None":
         return e is None
     if t == "Either":
@@ -654,10 +765,20 @@ KIND_OF = {"List": "list", "Dict": "dict", "Set": "set"}
 _CT = {}
 
 
+def resolved(spec):
+    """The spec with every by-name class reference replaced by the class."""
+    if spec[0] == "Fwd":
+        return ("Fwd", spec[1], "class", spec[3])
+    return tuple(resolved(x) if isinstance(x, tuple) else x for x in spec)
+
+
 def ctrait(spec):
+    """The inner trait used for the fixed-point check of a stored item (built
+    independently of the class under test; class references are given as
+    classes, so it has no lazy state of its own)."""
     ct = _CT.get(spec)
     if ct is None:
-        ct = _CT[spec] = build(spec).as_ctrait()
+        ct = _CT[spec] = build(resolved(spec)).as_ctrait()
     return ct
 
 
@@ -859,7 +980,7 @@ def has_conv(spec):
     t = spec[0]
     if t in POOLS:
         return bool(POOLS[t][1])
-    if t == "Instance":
+    if t == "Instance" or t == "Fwd":
         return False
     if t in ("Either", "Tuple"):
         return any(has_conv(s) for s in spec[1:])
@@ -899,6 +1020,15 @@ def _gen(spec, rng, want, borrow):
         if spec[1] and rng.random() < 0.25:
             return None
         return XS() if rng.random() < 0.3 else X()
+    if t == "Fwd":
+        mine, foreign = (X, Z) if spec[3] == "X" else (Z, X)
+        if want == INVALID:
+            # rich in instances of the OTHER class referred to by name, and in None
+            return rng.choice([foreign(), foreign(), Y(), 5, "x", 2.5, mine, [mine()]]
+                              + ([] if spec[1] else [None, None, None]))
+        if spec[1] and rng.random() < 0.25:
+            return None
+        return XS() if mine is X and rng.random() < 0.3 else mine()
     if t == "Either":
         if want == INVALID:
             for _ in range(10):
@@ -1490,6 +1620,8 @@ def valid_default(spec):
     inner = spec[1]
     if inner[0] == "Instance":
         return [X() for _ in range(spec[2])]
+    if inner[0] == "Fwd":
+        return [TARGETS[inner[3]]() for _ in range(spec[2])]
     if inner[0] == "List":
         return [[0] * inner[2] for _ in range(spec[2])]
     if inner[0] in ("Dict", "Set"):
@@ -1565,11 +1697,18 @@ def bounds_tag(spec):
 # --------------------------------------------------------------------------
 
 class History:
-    def __init__(self, ctx, spec, rng, isect=False, flavour="plain", tag=None, cls=None, obj=None):
+    def __init__(self, ctx, spec, rng, isect=False, flavour="plain", tag=None, cls=None, obj=None,
+                 other=None, lazy=None, role=None):
         """cls / obj: an owner class declared elsewhere and an existing owner to
         adopt (stratum of declared defaults); otherwise the configuration's
-        class and a fresh owner."""
+        class and a fresh owner.  other: an existing second owner, adopted as it
+        is (not populated).  lazy / role: stratum of by-name class references --
+        the state shared by the histories of one freshly declared class, and
+        this owner's role in it (see `LazyCase`)."""
         self.ctx = ctx
+        self.lazy = lazy
+        self.role = role
+        self.phase = None
         self.tag = tag              # stratum tag: counters are also kept per stratum
         self.isect = isect
         self.flavour = flavour
@@ -1586,8 +1725,11 @@ class History:
         if spec[0] == "Dict" and spec[2][0] in CONTAINER:
             self.nested_spec = spec[2]
         # `other`: a second owner of the same class, populated through assignment
-        self.other = cls()
-        self.populate(self.other)
+        if other is None:
+            self.other = cls()
+            self.populate(self.other)
+        else:
+            self.other = other
         # `obj`: half of the owners are built with the container as a constructor
         # keyword; flavoured owners often start from the (empty) default, i.e. falsy
         self.obj = obj
@@ -1699,11 +1841,51 @@ class History:
             if ns is not None and not any(n is self.raw for n in ns):
                 ns.append(self.raw)
 
+    def note_lazy(self, cands, route):
+        """Stratum bookkeeping (harness-side knowledge only): is this the first
+        operation on ANY owner of the class that submits an object at a position
+        whose class is given by name -- the moment the reference has to be
+        resolved --, or does it come before / after that moment?"""
+        st = self.lazy
+        if st is None:
+            return
+        touch = any(touches_lazy(sp, v) for sp, v in cands)
+        if st["touched"]:
+            self.phase = "post"
+            self.count("ops_post")
+            # whose value is operated on: the owner whose operation resolved the
+            # reference, ANOTHER owner created before that moment, or one created after it
+            self.count("ops_post_late_owner" if self.role == "late" else
+                       "ops_post_resolving_owner" if self.role == st["resolver"] else
+                       "ops_post_other_early_owner")
+            if touch:
+                self.count("ops_post_with_named_class_item")
+        elif touch:
+            st["touched"] = True
+            st["by"] = "%s:%s" % (self.role, route)
+            st["resolver"] = None if route == "construct" else self.role
+            self.phase = "first"
+            self.count("first_resolving_ops")
+            self.count("first_by_" + route)
+            self.count("first_on_" + self.role)
+            bad = any(classify(sp, v) == INVALID for sp, v in cands)
+            self.count("first_with_invalid_item" if bad else "first_all_valid")
+        else:
+            self.phase = "pre"
+            self.count("ops_pre")
+        if len(st["trail"]) < 40:
+            st["trail"].append("%s:%s:%s" % (self.role, route, self.phase))
+        self.ctx.sig("lazy", spec_name(self.spec), st["how"], st["default"], route, self.phase, self.role)
+
     def fail(self, kind, opname, complaint, msg, extra):
         w = {"config": spec_name(self.spec), "owner_flavour": self.flavour,
              "owner_truth_value": bool(self.obj), "history": [short(show(o), 300) for o in self.ops],
              "value": short(plain(getattr(self.obj, NAME)), 400)}
         w.update(extra)
+        if self.lazy is not None:
+            opname = "byname-" + opname
+            w.update({"class_reference": self.lazy["how"], "owner_role": self.role, "phase": self.phase,
+                      "first_resolving_operation": self.lazy["by"], "class_history": list(self.lazy["trail"])})
         self.ctx.violation("%s/%s/%s" % (kind, opname, complaint),
                            "%s: %s on %s; op=%s; %s" % (complaint, opname, spec_name(self.spec),
                                                         short(show(self.ops[-1]) if self.ops else None, 300), msg), w)
@@ -1780,6 +1962,7 @@ class History:
         len_bad = (model_exc is None and kind == "list"
                    and not tspec[2] <= len(model) <= tspec[3])
 
+        self.note_lazy(cands, "item-op" if where == "top" else where + "-item-op")
         before = snap(cur)
         pre = plain(cur)
         del LOG[:]
@@ -1851,6 +2034,8 @@ class History:
         # 3. direction
         if violating:
             self.count("direction_checked")
+            if self.phase:
+                self.count("direction_" + self.phase)
             if len_bad:
                 self.count("length_direction_checked")
             if exc is None:
@@ -1884,6 +2069,7 @@ class History:
         self.ops.append(("assign", route, how, v if how == "fresh" else plain(v)))
         self.count("assign_ops")
         ostate = self.owner_state(self.kind)
+        self.note_lazy([(self.spec, v)], "assign")
         before = snap(cur)
         pre = plain(cur)
         del LOG[:]
@@ -1933,6 +2119,8 @@ class History:
                 self.count("convertible_items_stored")
         if cls == INVALID:
             self.count("direction_checked")
+            if self.phase:
+                self.count("direction_" + self.phase)
             if exc is None:
                 return self.fail(kind, "assign", "no-traiterror-for-invalid-item",
                                  "an invalid whole value was accepted", {"assigned": short(plain(v), 300)})
@@ -1960,6 +2148,7 @@ class History:
         self.count("construct_ops")
         if self.flavour in ("len", "bool"):
             self.count("falsy_construct_ops")
+        self.note_lazy([(self.spec, v)], "construct")
         del LOG[:]
         new = None
         try:
@@ -1990,6 +2179,8 @@ class History:
                                  {"exception": short(exc, 300), "notifications": log[:10]})
         if cls == INVALID:
             self.count("direction_checked")
+            if self.phase:
+                self.count("direction_" + self.phase)
             if exc is None:
                 return self.fail(kind, "construct", "no-traiterror-for-invalid-item",
                                  "an invalid whole value was accepted by the constructor",
@@ -2373,6 +2564,218 @@ def run_defaults(ctx, nh):
 
 
 # --------------------------------------------------------------------------
+# stratum: inner traits whose class is given by NAME (forward references)
+# --------------------------------------------------------------------------
+# `Instance("X")` is resolved lazily, the first time a value is validated against
+# it; what the trait does before, during and after that moment -- on the owner
+# whose operation triggered it, on owners created before it and on owners created
+# after it -- is one more dimension of "every mutating operation, every prior
+# state".  Every case DECLARES A NEW CLASS (a fresh, unresolved reference) with
+# the by-name Instance in one or several inner positions (list item, set item,
+# dict key, dict value, both, item of a nested container, dict key next to a
+# nested container value, Tuple / Either member inside a container), spelled in
+# one of three ways (bare name looked up in the declaring module, dotted path,
+# bare name + `module=`).  Two owners are created first; nothing is populated
+# (the values start from the declared default: implicit, or a legal non-empty
+# one -- materialising that is then the resolving moment); ordinary histories
+# (same generators, same three oracles) run interleaved on the early owners and,
+# from the first operation that submits an object at a by-name position (an item
+# operation, a whole-value assignment, a constructor keyword; with valid or
+# with invalid items), on an owner created after it.  Nothing in the statement
+# depends on how the class was spelled: the reference is the one of
+# Instance(<class>).
+
+FX, FXN, FZ, FZN = FWD("X"), FWD("X", True), FWD("Z"), FWD("Z", True)
+LAZY_HOWS = ("bare", "dotted", "module")
+LAZY_CONFIGS = [
+    # list item / set item
+    L(FX), L(FXN), L(FX, 1, 3), L(FZN, 0, 2), S(FX), S(FXN), S(FZ),
+    # dict key
+    D(FX, FLOAT), D(FX, INT), D(FXN, STR), D(FZ, RNG), D(FX, EITH), D(FX, TUP), D(FX, INSTN), D(FZ, INST),
+    # dict value
+    D(STR, FX), D(INT, FXN), D(ENUM, FZ),
+    # dict key and dict value
+    D(FX, FZ), D(FZ, FXN), D(FX, FX), D(FXN, FZN),
+    # item of a nested container
+    L(L(FX)), L(L(FXN, 0, 2), 0, 3), L(S(FX)), L(D(FX, INT)), L(D(STR, FX)), D(STR, L(FX)), D(STR, S(FZ)),
+    D(STR, D(FX, FLOAT)), D(INT, D(STR, FXN)),
+    # dict key by name, nested container as value
+    D(FX, L(STR)), D(FX, L(INT, 0, 2)), D(FX, S(INT)), D(FX, D(STR, INT)), D(FX, L(FZ)), D(FZN, L(FX)),
+    # Tuple member inside a container
+    L(("Tuple", FX, STR)), L(("Tuple", INT, FXN)), S(("Tuple", FX, INT)), D(("Tuple", FX, INT), FLOAT),
+    D(STR, ("Tuple", FZ, FX)), D(FX, ("Tuple", INT, STR)),
+    # Either member inside a container
+    L(("Either", FX, INT)), L(("Either", INT, FX)), L(("Either", FX, NONE)), S(("Either", FZ, STR)),
+    D(("Either", FX, STR), INT), D(STR, ("Either", FX, FZ)), D(FX, ("Either", STR, NONE)),
+]
+
+
+def with_how(spec, how):
+    if spec[0] == "Fwd":
+        return ("Fwd", spec[1], how, spec[3])
+    return tuple(with_how(x, how) if isinstance(x, tuple) else x for x in spec)
+
+
+def lazy_positions(spec, nested=False, out=None):
+    """Structural tags of the inner positions that hold a by-name reference."""
+    out = set() if out is None else out
+    t = spec[0]
+    roles = ([("list-item", spec[1])] if t == "List" else [("set-item", spec[1])] if t == "Set" else
+             [("dict-key", spec[1]), ("dict-value", spec[2])])
+    for role, inner in roles:
+        if inner[0] == "Fwd":
+            out.add(role)
+            if nested:
+                out.add("nested-" + role)
+        elif inner[0] in ("Tuple", "Either") and any(m[0] == "Fwd" for m in inner[1:]):
+            out.add(role)
+            out.add(inner[0].lower() + "-member")
+        elif inner[0] in CONTAINER:
+            lazy_positions(inner, True, out)
+    if "dict-key" in out and t == "Dict" and spec[2][0] in CONTAINER and not nested:
+        out.add("dict-key-with-container-value")
+    return out
+
+
+def touches_lazy(spec, v):
+    """Would validating `v` against spec submit an object (not None) to a
+    by-name Instance?  (harness-side estimate, used for bookkeeping only)"""
+    t = spec[0]
+    if t == "Fwd":
+        return v is not None
+    if t == "Tuple":
+        return (isinstance(v, tuple) and len(v) == len(spec) - 1
+                and any(touches_lazy(m, x) for m, x in zip(spec[1:], v)))
+    if t == "Either":
+        for m in spec[1:]:
+            if touches_lazy(m, v):
+                return True
+            if accepts(m, v):
+                return False
+        return False
+    if t == "List":
+        return isinstance(v, list) and any(touches_lazy(spec[1], x) for x in list.__iter__(v))
+    if t == "Set":
+        return isinstance(v, set) and any(touches_lazy(spec[1], x) for x in set.__iter__(v))
+    if t == "Dict":
+        return isinstance(v, dict) and any(touches_lazy(spec[1], k) or touches_lazy(spec[2], x)
+                                           for k, x in dict.items(v))
+    return False
+
+
+class LazyCase:
+    def __init__(self, ctx, spec, rng, flavour, how, rounds):
+        self.ctx, self.spec, self.rng, self.flavour, self.how, self.rounds = ctx, spec, rng, flavour, how, rounds
+        self.raw = None
+        self.st = None
+        self.cls = None
+
+    def count(self, name, n=1):
+        self.ctx.count("lazy_" + name, n)
+
+    def start(self, obj, other, role):
+        """Adopt an owner: listeners are hooked and its value (the declared
+        default) is materialised and walked.  None: the case is over (a
+        violation was reported, or the default was refused)."""
+        st = self.st
+        try:
+            h = History(self.ctx, self.spec, self.rng, flavour=self.flavour, tag="lazy", cls=self.cls,
+                        obj=obj, other=other, lazy=st, role=role)
+        except TraitError:
+            # the declared (legal) default was refused: nothing is stored, nothing to judge
+            self.count("default_refused")
+            return None
+        self.count("owners_adopted")
+        self.count("owners_adopted_" + ("after" if st["touched"] else "before") + "_first_resolution")
+        if not st["touched"] and self.raw is not None and touches_lazy(self.spec, self.raw):
+            st["touched"] = True
+            st["by"] = role + ":default"
+            st["resolver"] = role
+            st["trail"].append("%s:default:first" % role)
+            self.count("first_resolving_ops")
+            self.count("first_by_default")
+        h.attach_raw()
+        h.phase = "post" if st["touched"] else "pre"
+        if h.walk(h.kind, "initial"):
+            return None
+        return h
+
+    def run(self):
+        ctx, rng, spec = self.ctx, self.rng, self.spec
+        raw, declared = valid_default(spec), "implicit"
+        if raw is None and rng.random() < 0.25:
+            raw, declared = gen(spec, rng, VALID), "given"
+        self.raw = raw
+        self.count("default_" + declared)
+        self.cls = cls = make_class(build(spec, raw), self.flavour)
+        self.st = st = {"touched": False, "by": None, "resolver": None, "how": self.how, "trail": [],
+                        "default": declared}
+        a, b = cls(), cls()                   # both exist before anything is resolved
+        ha = self.start(a, b, "early-a")
+        if not ha:
+            return
+        hb = hc = None
+        if rng.random() < 0.5:
+            hb = self.start(b, a, "early-b")
+            if hb is None:
+                return
+        first = rng.random()
+        for rnd in range(self.rounds):
+            hs = [h for h in (ha, hb, hc) if h]
+            rng.shuffle(hs)
+            for h in hs:
+                h.count("history_ops")
+                if rnd == 0 and h is hs[0] and first < 0.35:
+                    bad = h.step_assign() if first < 0.2 else h.step_construct()
+                else:
+                    bad = h.step()
+                if bad:
+                    return
+            if st["touched"]:
+                if hb is None:
+                    # an early owner whose value is not even materialised before the resolution
+                    hb = self.start(b, a, "early-b")
+                    if hb is None:
+                        return
+                if hc is None:
+                    hc = self.start(cls(), a, "late")
+                    if hc is None:
+                        return
+        if st["touched"]:
+            self.count("cases_resolved")
+        for h in (ha, hb, hc):
+            if h:
+                self.count("final_walks")
+                if h.walk(h.kind, "final"):
+                    return
+
+
+def run_lazy(ctx, nh, rounds):
+    for hno in range(nh):
+        if not ctx.mine(hno):
+            continue
+        base = LAZY_CONFIGS[hno % len(LAZY_CONFIGS)]
+        k = hno // len(LAZY_CONFIGS)
+        how = LAZY_HOWS[k % len(LAZY_HOWS)]
+        flavour = FLAVOURS[(k // len(LAZY_HOWS)) % len(FLAVOURS)]
+        spec = with_how(base, how)
+        if not ctx.begin("lazy:%d" % hno, {"config": spec_name(spec), "class_reference": how, "owner": flavour}):
+            continue
+        try:
+            ctx.count("lazy_cases")
+            ctx.count("lazy_name_" + how)
+            for tagname in sorted(lazy_positions(spec)):
+                ctx.count("lazy_pos_" + tagname)
+            case = LazyCase(ctx, spec, ctx.rng("lazy", hno), flavour, how, rounds)
+            case.run()
+            if hno // ctx.nshards < 1:
+                ctx.sample({"config": spec_name(spec), "class_reference": how, "owner": flavour,
+                            "class_history": case.st["trail"][:12] if case.st else None}, cap=8)
+        finally:
+            ctx.end()
+
+
+# --------------------------------------------------------------------------
 # self-test of the reference (oracle consistency, no traits involved)
 # --------------------------------------------------------------------------
 
@@ -2381,7 +2784,8 @@ def selftest(ctx):
     n = 0
     for spec in [INT, FLOAT, STR, RNG, ENUM, INST, INSTN, EITH, TUP, CINT, ODD, NEST, UNIT, LOWER, EVENC,
                  AGREED, SBYTES, FILE, DIR, STRING, ("Tuple", ODD, NEST), ("Either", ODD, NONE),
-                 ("Either", NEST, ODD)]:
+                 ("Either", NEST, ODD), FX, FXN, FZ, FZN, ("Tuple", FX, STR), ("Either", FX, INT),
+                 ("Either", FX, FZ), ("Either", FX, NONE)]:
         for want in (VALID, CONV, INVALID):
             for _ in range(40):
                 v = gen(spec, rng, want)
@@ -2469,6 +2873,9 @@ def run(ctx):
             ctx.end()
     # ---- stratum: declared defaults / sibling owners on one default ------------
     run_defaults(ctx, ctx.scale(3200, 80000))
+    # ---- stratum: inner traits whose class is given by name (forward references) --
+    ctx.note("by_name_configurations", [spec_name(s) for s in LAZY_CONFIGS])
+    run_lazy(ctx, ctx.scale(1500, 36000), 6)
     # ---- stratum: intersection with equal-but-not-identical operands ---------
     set_cfgs = [c for c in CONFIGS if c[0] == "Set" or (c[0] == "List" and c[1][0] == "Set")
                 or (c[0] == "Dict" and c[2][0] == "Set")]
